@@ -3,6 +3,7 @@
 pub mod collections;
 pub mod event;
 pub mod mpmc;
+pub mod mpmc_zst;
 pub mod mutex;
 pub mod oneshot;
 pub mod ringbuf;
@@ -14,7 +15,7 @@ pub mod timer;
 use crate::common::World;
 
 pub fn all() -> Vec<&'static dyn World> {
-    vec![&mutex::MutexWorld, &semaphore::SemaphoreWorld, &event::EventWorld, &timer::TimerWorld, &oneshot::OneshotWorld, &state::StateWorld, &mpmc::MpmcWorld, &ringbuf::RingBufWorld, &collections::ListWorld, &collections::HeapWorld, &tasks::TaskMutexWorld, &tasks::TaskSemaphoreWorld, &tasks::TaskEventWorld, &tasks::TaskMpmcWorld, &tasks::TaskOneshotWorld, &tasks::TaskStateWorld, &tasks::TaskTimerWorld]
+    vec![&mutex::MutexWorld, &semaphore::SemaphoreWorld, &event::EventWorld, &timer::TimerWorld, &oneshot::OneshotWorld, &state::StateWorld, &mpmc::MpmcWorld, &ringbuf::RingBufWorld, &collections::ListWorld, &collections::HeapWorld, &tasks::TaskMutexWorld, &tasks::TaskSemaphoreWorld, &tasks::TaskEventWorld, &tasks::TaskMpmcWorld, &tasks::TaskOneshotWorld, &tasks::TaskStateWorld, &tasks::TaskTimerWorld, &mpmc_zst::MpmcZstWorld]
 }
 
 pub fn by_name(name: &str) -> Option<&'static dyn World> {
